@@ -120,6 +120,27 @@ def r11a(ctx):
         ctx.ob('R11a', f'DNAS.{name}', ok,
                f'requires_grad: {exp}' if ok else
                f'sets requires_grad {got}, expected {exp}', where(fn))
+        # ... on EVERY call: the effect of a control must not depend on what earlier calls left
+        # behind, so each returning path runs the loops over both parameter groups (a path that
+        # returns before them - "same selection as last time, nothing to do" - misses flags
+        # that other switches changed in the meantime)
+        skipping = []
+        for p in returning(paths(repo, fn, keep=('nas_parameters', 'net_parameters',
+                                                 'named_nas_parameters', 'named_net_parameters'))):
+            doms = set()
+            for e in p.events:
+                if e.kind in ('loop0', 'loopend') and e.data[1] is not None:
+                    mcd = method_call(e.data[1])
+                    if mcd and mcd[0] == SELF:
+                        doms.add(mcd[1].replace('named_', ''))
+            if not {'nas_parameters', 'net_parameters'} <= doms:
+                skipping.append([(short(a, 50), v) for a, v in p.assumptions] or ['unconditional'])
+        ctx.ob('R11a', f'DNAS.{name} acts on every call', not skipping,
+               'both parameter groups are rewritten on every returning path' if not skipping else
+               f'a path returns without rewriting both groups, under {skipping[0]}: the call '
+               f'relies on state remembered from earlier calls, which the other switches '
+               f'(train_features / train_rf / train_dilation / train_selection) do not keep up '
+               f'to date', where(fn))
 
 
 def _second(t: Term) -> Term:
